@@ -27,7 +27,19 @@ library expects from a validator.  Two oracle clauses and one family make that e
    (`default_error_oracle`; schema form, DSL form and inherited classes);
  * numeric defaults over a ladder of magnitudes (10^-12 .. 10^40, ints and floats, both signs, random digits) under
    random numeric keywords, alone, as a member of a model class and of an untyped object, renamed or not
-   (`magnitude_case`): arithmetic on a default must not depend on the default being of an everyday size."""
+   (`magnitude_case`): arithmetic on a default must not depend on the default being of an everyday size.
+
+"Under the property's Python name" is a statement about each model, and "exactly as if it had been supplied" about every time a
+default is delivered - whatever else the declaration is used for and whatever earlier recipients did with what they got:
+ * one declaration, several models (`shared_case`): a Property object written once (or its element under a Property of the
+   model's own) declared by 2-4 model classes / untyped objects under the same or different Python names, first used in any
+   order; every model exposes defaults - and supplied values (`check_supplied_kept`) - under ITS OWN names;
+ * caller histories (`caller_history_case`, the "mutate" / "np-mutate" steps of `run_history`): members whose defaults are
+   structures (lists of lists, lists of models, objects of containers, composition wrappers around a model, class-level
+   defaults), and a caller who writes into the value it received - 0 to 3 levels below the top, in an object built or in the
+   answer to a call without a value; every later delivery of the default is compared with what supplying it yields, model
+   instances attribute by attribute (`deep`).  The containers of the declared defaults themselves (an invalid default is
+   handed out as it is) are never written into."""
 import copy
 import itertools
 import random
@@ -35,6 +47,7 @@ import re
 
 from statham.schema.constants import NotPassed
 from statham.schema.elements import Element, Object
+from statham.schema.elements.base import _AnonymousObject
 from statham.schema.exceptions import ValidationError
 
 from harness import core
@@ -578,19 +591,51 @@ def history_schema(rng, sg, stats):
 
 def run_history(el, schema, ops, out, stats, upto=None):
     """ops: ["np"] - the element called with no value; ["np-prop", attribute] - a property's own element called with no
-    value; ["build", data] - the element called with data.  Each step is checked where it stands in the history."""
+    value; ["build", data] - the element called with data; ["mutate", attribute, walk, action] - the caller modifies, in
+    place, the value it received under that attribute in the last object built (`walk` says how far below the top level);
+    ["np-mutate", attribute or None, walk, action] - the same with the value a call without a value returned.  Each step
+    is checked where it stands in the history.  A history with a modifying step is a *caller history*: there every default
+    is also compared with what supplying it yields, model instances attribute by attribute (`deep`)."""
+    caller = any(op[0] in ("mutate", "np-mutate") for op in ops)
+    protected = declared_default_ids(el) if caller else set()
+    last = None
     for step, op in enumerate(ops):
         if upto is not None and step > upto:
             break
         case = {"schema": schema, "ops": ops, "step": step}
         if op[0] == "np":
             check_no_value(el, core.real_call(el, core.NP), case, out, stats, f"step {step}: called without a value")
+            if caller:
+                check_no_value_deep(el, case, out, stats, f"step {step}: called without a value")
         elif op[0] == "np-prop":
             props = getattr(el, "properties", None)
             if not isinstance(props, dict) or op[1] not in props:
                 continue
             e = props[op[1]].element
             check_no_value(e, core.real_call(e, core.NP), case, out, stats, f"step {step}: element of property {op[1]} called without a value")
+            if caller:
+                check_no_value_deep(e, case, out, stats, f"step {step}: element of property {op[1]} called without a value")
+        elif op[0] == "mutate":
+            if last is None:
+                bump(stats, "caller-mutation-nothing-built-yet")
+                continue
+            try:
+                target = getattr(last, op[1]) if isinstance(last, Object) else last[op[1]]
+            except (AttributeError, KeyError):
+                bump(stats, "caller-mutation-no-such-member")
+                continue
+            note_mutation(stats, "built", mutate(target, op[2], op[3], protected))
+        elif op[0] == "np-mutate":
+            props = getattr(el, "properties", None)
+            if op[1] is not None and (not isinstance(props, dict) or op[1] not in props):
+                continue
+            e = el if op[1] is None else props[op[1]].element
+            try:
+                target = e(core.NP)
+            except Exception:  # noqa: BLE001 - the no-value steps report it
+                bump(stats, "caller-mutation-no-value-call-raised")
+                continue
+            note_mutation(stats, "no-value", mutate(target, op[2], op[3], protected))
         else:
             v = op[1]
             real = core.real_call(el, v)
@@ -600,11 +645,14 @@ def run_history(el, schema, ops, out, stats, upto=None):
             if real["r"] != "ok":
                 continue
             try:
-                res = el(v)
+                res = el(copy.deepcopy(v)) if caller else el(v)     # a caller history modifies what it receives: never the case's own data
             except Exception:  # noqa: BLE001
                 continue
             bump(stats, "history-builds-checked")
             check_object(el, v, res, case, out, stats, True)
+            if caller:
+                last = res
+                check_object_deep(el, v, res, case, out, stats)
 
 
 def history_case(rng, sg, vg, out, stats):
@@ -634,6 +682,473 @@ def history_case(rng, sg, vg, out, stats):
         out.note_case({"schema": schema, "ops": ops[:step + 1]}, True)
     if len(out.failures) > before:
         bump(stats, "history-failing-cases")
+
+
+# ----------------------------------------------------------------------------- caller histories: what a caller does with a value it received
+
+def deep(x):
+    """`core.canon_rval` that also shows the attributes of model instances (a caller's `obj.attr = ...` lives there, not in
+    `_dict`) - "converted exactly as if it had been supplied" is a statement about everything a caller can see."""
+    if isinstance(x, Object):
+        attrs = []
+        for n in type(x).properties:
+            try:
+                attrs.append([n, deep(getattr(x, n))])
+            except AttributeError:
+                attrs.append([n, {"missing-attr": 1}])
+        return {"inst": type(x).__name__, "d": [[k, deep(v)] for k, v in x._dict.items()], "attrs": attrs}  # pylint: disable=protected-access
+    if isinstance(x, dict):
+        return {"anon" if isinstance(x, _AnonymousObject) else "dict": [[k, deep(v)] for k, v in x.items()]}
+    if isinstance(x, (list, tuple)):
+        return [deep(v) for v in x]
+    return core.canon_rval(x)
+
+
+def fresh_default(elem):
+    """What supplying (a private copy of) the declared default yields right now; the raw default when it is not valid."""
+    d = getattr(elem, "default", NotPassed())
+    if isinstance(d, NotPassed):
+        return dict(NPJ)
+    try:
+        return deep(elem(copy.deepcopy(d)))
+    except (TypeError, ValidationError):
+        return deep(d)
+    except Exception as exc:  # noqa: BLE001
+        return {"exc": type(exc).__name__}
+
+
+def check_no_value_deep(e, case, out, stats, what):
+    exp = fresh_default(e)
+    if isinstance(exp, dict) and "exc" in exp:
+        return
+    try:
+        got = deep(e(core.NP))
+    except Exception:  # noqa: BLE001 - check_no_value reports it
+        return
+    bump(stats, "caller-no-value-compared")
+    if got != exp:
+        bump(stats, "caller-no-value-differs")
+        out.failures.append({"case": case, "what": f"{what}: supplying the default yields {exp}, the call without a value yields {got} "
+                             "(after the caller modified a value it had received earlier)", "finding": None})
+
+
+def check_object_deep(el, v, res, case, out, stats, path=""):
+    """res = el(v).  Every declared property that v omits holds what supplying its default yields (attribute by attribute for
+    model instances), at every nesting level of the data.  Shapes that lie in a listed region are check_object's business."""
+    props = getattr(el, "properties", None)
+    mapping = _mapping(res)
+    if not isinstance(props, dict) or not props or mapping is None:
+        return
+    if not isinstance(getattr(el, "patternProperties", NotPassed()), NotPassed):
+        return
+    sources = [p.source or n for n, p in props.items()]
+    for name, prop in props.items():
+        src = prop.source or name
+        if sources.count(src) > 1 or any(k != src and k == name for k in v):
+            continue
+        if src in v:
+            if isinstance(v[src], dict) and name in mapping and _mapping(mapping[name]) is not None and len(path) < 40:
+                check_object_deep(prop.element, v[src], mapping[name], case, out, stats, path + name + ".")
+            continue
+        exp = fresh_default(prop.element)
+        if exp == NPJ or (isinstance(exp, dict) and "exc" in exp):
+            continue
+        bump(stats, "caller-omitted-compared")
+        got = deep(mapping[name]) if name in mapping else {"missing": 1}
+        if got == exp and isinstance(res, Object):
+            try:
+                got = deep(getattr(res, name))
+            except AttributeError:
+                got = {"missing-attr": 1}
+        if got != exp:
+            bump(stats, "caller-omitted-differs")
+            out.failures.append({"case": case, "what": f"omitted property {src!r} (attribute {path}{name}): supplying the default yields {exp}, the object holds {got} "
+                                 "(after the caller modified a value it had received earlier)", "finding": None})
+
+
+SUB_ELEMENT_ATTRS = ["items", "additionalItems", "additionalProperties", "patternProperties", "propertyNames", "contains", "dependencies",
+                     "elements", "element", "if_", "then", "else_"]
+
+
+def _container_ids(x, ids):
+    if isinstance(x, (list, dict, Object)) and id(x) not in ids:
+        ids.add(id(x))
+        for c in (x.values() if isinstance(x, dict) else x if isinstance(x, list) else x._dict.values()):  # pylint: disable=protected-access
+            _container_ids(c, ids)
+
+
+def declared_default_ids(e, ids=None, seen=None):
+    """The containers that make up the declared defaults of an element tree: an invalid default is handed out as it is, and a
+    caller who writes into *that* rewrites the schema - not a history this property speaks about."""
+    from statham.schema.elements.meta import ObjectMeta
+    from statham.schema.property import _Property
+    ids = set() if ids is None else ids
+    seen = set() if seen is None else seen
+
+    def visit(x, depth=0):
+        if isinstance(x, _Property):
+            x = x.element
+        if isinstance(x, (Element, ObjectMeta)):
+            declared_default_ids(x, ids, seen)
+        elif isinstance(x, dict) and depth < 3:
+            for c in x.values():
+                visit(c, depth + 1)
+        elif isinstance(x, (list, tuple)) and depth < 3:
+            for c in x:
+                visit(c, depth + 1)
+
+    if id(e) in seen:
+        return ids
+    seen.add(id(e))
+    _container_ids(getattr(e, "default", None), ids)
+    props = getattr(e, "properties", None)
+    if isinstance(props, dict):
+        visit(props)
+    for attr in SUB_ELEMENT_ATTRS:
+        visit(getattr(e, attr, None))
+    return ids
+
+
+def _container_children(x):
+    if isinstance(x, Object):
+        kids = [getattr(x, n, None) for n in type(x).properties]
+    elif isinstance(x, dict):
+        kids = list(x.values())
+    elif isinstance(x, list):
+        kids = list(x)
+    else:
+        kids = []
+    return [c for c in kids if isinstance(c, (list, dict, Object))]
+
+
+MUTATION_MARK = -99
+
+
+def mutate(target, walk, action, protected):
+    """Modify, in place, a container inside `target`: go down one level per entry of `walk` for as long as there is a
+    container below, then append to / shorten / overwrite a list, set / overwrite / delete a member of an attribute-access
+    dict, or assign an attribute of a model instance.  Returns (depth reached, what was done) or a reason for doing nothing."""
+    if not isinstance(target, (list, dict, Object)):
+        return "not-a-container"
+    depth = 0
+    for step in walk:
+        kids = _container_children(target)
+        if not kids:
+            break
+        target = kids[step % len(kids)]
+        depth += 1
+    if id(target) in protected:
+        return "declared-default-itself"
+    if isinstance(target, list):
+        todo = ["append"] + (["pop", "overwrite"] if target else [])
+        act = todo[action % len(todo)]
+        if act == "append":
+            target.append(MUTATION_MARK)
+        elif act == "pop":
+            target.pop()
+        else:
+            target[action % len(target)] = MUTATION_MARK
+        return depth, "list-" + act
+    if isinstance(target, dict):
+        keys = list(target)
+        todo = ["set"] + (["overwrite", "delete"] if keys else [])
+        act = todo[action % len(todo)]
+        if act == "set":
+            target["mut" + str(action % 3)] = MUTATION_MARK
+        elif act == "overwrite":
+            target[keys[action % len(keys)]] = MUTATION_MARK
+        else:
+            del target[keys[action % len(keys)]]
+        return depth, "dict-" + act
+    names = list(type(target).properties)
+    if not names:
+        return "instance-without-properties"
+    setattr(target, names[action % len(names)], MUTATION_MARK)
+    return depth, "instance-setattr"
+
+
+def note_mutation(stats, route, done):
+    if isinstance(done, str):
+        bump(stats, "caller-mutation-skipped-" + done)
+    else:
+        bump(stats, f"caller-mutation-{route}-value-depth-{min(done[0], 3)}")
+        bump(stats, "caller-mutation-" + done[1])
+
+
+def nested_json(rng, depth):
+    """A JSON object / array with containers inside containers."""
+    def scalar():
+        return rng.choice([0, 1, 3, "a", "b", True, None, 2.5])
+
+    def value(d):
+        k = rng.random()
+        if d <= 0 or k < 0.3:
+            return scalar()
+        if k < 0.65:
+            return [value(d - 1) for _ in range(rng.randint(0, 3))]
+        return {n: value(d - 1) for n in rng.sample(["retry", "hosts", "count", "opts", "k"], rng.randint(1, 3))}
+
+    if rng.random() < 0.5:
+        return {n: value(depth - 1) if rng.random() < 0.3 else rng.choice([[value(depth - 2)], {"count": value(depth - 2)}, [[1, 2], [3]], {"k": {"count": 3}}])
+                for n in rng.sample(["retry", "hosts", "opts", "k"], rng.randint(1, 3))}
+    return [rng.choice([[value(depth - 2), 1], {"count": value(depth - 2)}, [1, 2], {"k": [1]}]) for _ in range(rng.randint(1, 3))]
+
+
+def structured_prop(rng, i):
+    """A property schema whose default is a structure (mostly a valid one, mostly with containers inside containers)."""
+    kind = rng.choice(["grid", "untyped-nested", "untyped-nested", "array-of-models", "object-of-containers", "composition-model",
+                       "model-class-default", "flat"])
+    if kind == "grid":
+        rows = [[rng.randint(0, 9) for _ in range(rng.randint(0, 3))] for _ in range(rng.randint(1, 3))]
+        if rng.random() < 0.15:
+            rows[0].append("x")          # not valid: returned as it is
+        s = {"type": "array", "items": {"type": "array", "items": {"type": "integer"}}, "default": rows}
+    elif kind == "untyped-nested":
+        d = nested_json(rng, 3)
+        s = {"default": d}
+        if isinstance(d, dict) and rng.random() < 0.5:
+            s["properties"] = {next(iter(d)): {}}
+        if isinstance(d, list) and rng.random() < 0.3:
+            s["items"] = {}
+    elif kind == "array-of-models":
+        row = {"type": "object", "title": f"Row{i}", "properties": {"q": {"type": "integer", "default": 5},
+                                                                     "tags": {"type": "array", "items": {"type": "string"}, "default": ["t"]}}}
+        s = {"type": "array", "items": row, "default": [rng.choice([{}, {"q": 1}, {"tags": ["u", "v"]}, {"q": 2, "tags": []}]) for _ in range(rng.randint(1, 3))]}
+    elif kind == "object-of-containers":
+        s = {"properties": {"hosts": {"type": "array", "items": {"type": "string"}},
+                            "retry": {"type": "object", "title": f"Retry{i}", "properties": {"count": {"type": "integer", "default": 3}}}},
+             "default": rng.choice([{"hosts": ["a"], "retry": {}}, {"retry": {"count": 1}}, {"hosts": ["a", "b"]}, {"hosts": [1]}])}
+    elif kind == "composition-model":
+        model = {"type": "object", "title": f"Limits{i}", "properties": {"low": {"type": "integer", "default": 0}, "high": {"type": "integer"},
+                                                                          "marks": {"type": "array", "items": {"type": "integer"}, "default": [1]}}}
+        if rng.random() < 0.5:
+            model["required"] = ["high"]
+        kw = rng.choice(["allOf", "anyOf", "oneOf"])
+        other = {"minProperties": 1} if kw != "oneOf" else {"type": "integer"}
+        s = {kw: [model, other] if rng.random() < 0.7 else [model], "default": rng.choice([{"high": 10}, {"high": 1, "low": 2}, {"high": 3, "marks": [4, 5]}, {}])}
+    elif kind == "model-class-default":
+        s, sub = class_with_default(rng, f"Inner{i}")
+        kind += "-" + sub
+    else:
+        s = rng.choice([{"type": "array", "items": {"type": "integer"}, "default": [1, 2]}, {"default": {"k": 1}}, {"default": [1, "a"]},
+                        {"type": "string", "default": "s"}, {"type": "integer", "default": "bad"}])
+    return s, kind
+
+
+def caller_history_case(rng, vg, out, stats):
+    """Objects are built from data omitting members whose defaults are structures, the caller works with what it received
+    (writes into it at some depth), and later objects / calls without a value must still deliver every default exactly as if
+    it had been supplied."""
+    names = rng.sample(HIST_NAMES, rng.choice([1, 2, 3]))
+    props = {}
+    for i, n in enumerate(names):
+        props[n], kind = structured_prop(rng, i)
+        bump(stats, "caller-history-default-" + kind)
+    schema = {"properties": props}
+    if rng.random() < 0.6:
+        schema.update({"type": "object", "title": rng.choice(["Job", "Cfg"])})
+    status, el = core.real_parse(schema)
+    if status != "ok":
+        bump(stats, "caller-history-parse-" + status)
+        return
+    attrs = list(getattr(el, "properties", None) or {})
+    if not attrs:
+        return
+
+    def build():
+        data = {}
+        for n in names:
+            if rng.random() < 0.25:
+                data[n] = copy.deepcopy(props[n]["default"]) if rng.random() < 0.5 else vg.aimed(props[n], 2)
+        return ["build", data]
+
+    def walk():
+        return [rng.randint(0, 99) for _ in range(rng.choice([0, 1, 1, 2, 2, 3]))]
+
+    ops = [build()]
+    for _ in range(rng.randint(4, 9)):
+        k = rng.random()
+        if k < 0.3:
+            ops.append(build())
+        elif k < 0.6:
+            ops.append(["mutate", rng.choice(attrs), walk(), rng.randint(0, 99)])
+        elif k < 0.75:
+            ops.append(["np-mutate", rng.choice(attrs + [None]) if rng.random() < 0.9 else None, walk(), rng.randint(0, 99)])
+        elif k < 0.9:
+            ops.append(["np-prop", rng.choice(attrs)])
+        else:
+            ops.append(["np"])
+    ops.append(build())
+    bump(stats, "caller-history-cases")
+    bump(stats, "caller-history-ops", len(ops))
+    before = len(out.failures)
+    run_history(el, schema, ops, out, stats)
+    for step in range(len(ops)):
+        out.note_case({"schema": schema, "ops": ops[:step + 1]}, True)
+    if len(out.failures) > before:
+        bump(stats, "caller-history-failing-cases")
+
+
+# ----------------------------------------------------------------------------- one declaration, several models
+
+SHARED_ATTRS = ["a", "b", "ident", "label", "n", "size", "first", "second", "ref", "key_"]
+SHARED_SOURCES = ["$id", "a b", "x-y", "class", "é", "n$", "1st", "@ref"]        # never a Python name: no key collisions by construction
+SHARED_KINDS = ["Integer", "String", "Number", "Element", "Array"]
+SHARED_DEFAULTS = [0, 1, "s", "", 2.5, [1], [], {"k": 1}, None, True, "anonymous", [1, "a"]]
+
+
+def _shared_element(kind, default):
+    from statham.schema.elements import Array, Integer, Number, String
+    kw = {"default": copy.deepcopy(default[0])} if default else {}
+    if kind == "Array":
+        return Array(Number(), **kw)
+    return {"Integer": Integer, "String": String, "Number": Number, "Element": Element}[kind](**kw)
+
+
+def build_shared(spec):
+    """spec["pool"]: declarations written once - [source or None, element kind, [] or [default], required];
+    spec["models"]: {"untyped": bool, "members": [[attribute, "shared", pool index] - the pooled Property object itself |
+    [attribute, "elem", pool index, source or None] - a Property of its own around the pooled element |
+    [attribute, "own", source or None, kind, [] or [default]]]}.  Models are defined in the order given."""
+    from statham.schema.elements.meta import ObjectClassDict, ObjectMeta
+    from statham.schema.property import Property
+    pool = [Property(_shared_element(kind, d), source=src, required=bool(req)) for src, kind, d, req in spec["pool"]]
+    models = []
+    for mi, m in enumerate(spec["models"]):
+        members = {}
+        for entry in m["members"]:
+            if entry[1] == "shared":
+                members[entry[0]] = pool[entry[2]]
+            elif entry[1] == "elem":
+                members[entry[0]] = Property(pool[entry[2]].element, source=entry[3])
+            else:
+                members[entry[0]] = Property(_shared_element(entry[3], entry[4]), source=entry[2])
+        if m["untyped"]:
+            models.append(Element(properties=members))
+        else:
+            cd = ObjectClassDict()
+            for name, prop in members.items():
+                cd[name] = prop
+            models.append(ObjectMeta(f"Model{mi}", (Object,), cd))
+    return models
+
+
+def shared_twin(spec, mi, v, sources):
+    """The same declarations, where those the data omits in model `mi` declare no default."""
+    twin, n = copy.deepcopy(spec), 0
+    for entry, src in zip(twin["models"][mi]["members"], sources):
+        if src in v:
+            continue
+        holder = twin["pool"][entry[2]] if entry[1] in ("shared", "elem") else entry
+        slot = 2 if entry[1] in ("shared", "elem") else 4
+        if holder[slot]:
+            holder[slot] = []
+            n += 1
+    return build_shared(twin)[mi] if n else None
+
+
+def check_supplied_kept(model, v, res, case, out, stats):
+    """A supplied value is never replaced by a default: it is exposed, under the property's Python name, as the property's own
+    element converts it."""
+    mapping = _mapping(res)
+    for name, prop in model.properties.items():
+        src = prop.source or name
+        if src not in v or mapping is None:
+            continue
+        try:
+            exp = deep(prop.element(copy.deepcopy(v[src])))
+        except Exception:  # noqa: BLE001 - what the value itself is worth is C04's business
+            continue
+        bump(stats, "shared-supplied-compared")
+        got = deep(mapping[name]) if name in mapping else {"missing": 1}
+        if got == exp and isinstance(res, Object):
+            try:
+                got = deep(getattr(res, name))
+            except AttributeError:
+                got = {"missing-attr": 1}
+        if got != exp:
+            out.failures.append({"case": case, "what": f"supplied property {src!r} (attribute {name}): its element converts the value to {exp}, the object holds {got}",
+                                 "finding": None})
+
+
+def run_shared(spec, order, mi, v, case, out, stats):
+    models = build_shared(spec)
+    for i in order:
+        core.real_call(models[i], {})
+    model = models[mi]
+    sources = [p.source or n for n, p in model.properties.items()]
+    real = core.real_call(model, v)
+    if real["r"] != "ok":
+        bump(stats, "shared-not-accepted")
+        omission_oracle(model, v, case, out, stats)
+        default_error_oracle(real, lambda: shared_twin(spec, mi, v, sources), v, case, out, stats)
+        return
+    bump(stats, "shared-accepted")
+    res = model(copy.deepcopy(v))
+    check_object(model, v, res, case, out, stats, True)
+    check_supplied_kept(model, v, res, case, out, stats)
+
+
+def shared_case(rng, out, stats):
+    """A declaration written once and used by several models - the Property object itself, or its element under a Property of
+    the model's own - under the same or different Python names, in model classes and untyped objects, used in any order: each
+    model exposes defaults and supplied values under ITS OWN names."""
+    pool = []
+    for _ in range(rng.choice([1, 1, 2, 3])):
+        src = rng.choice(SHARED_SOURCES) if rng.random() < 0.8 else None
+        while src is not None and any(p[0] == src for p in pool):
+            src = rng.choice(SHARED_SOURCES)
+        pool.append([src, rng.choice(SHARED_KINDS), [rng.choice(SHARED_DEFAULTS)] if rng.random() < 0.85 else [], rng.random() < 0.2])
+    canon = [f"s{i}" for i in range(len(pool))]
+    models = []
+    for _ in range(rng.choice([2, 2, 3, 4])):
+        free_attrs = rng.sample(SHARED_ATTRS, len(SHARED_ATTRS))
+        free_srcs = [s for s in rng.sample(SHARED_SOURCES, len(SHARED_SOURCES)) if all(p[0] != s for p in pool)]
+        members = []
+        for pi, p in enumerate(pool):
+            if rng.random() < 0.15:
+                continue
+            # a declaration without a JSON name of its own takes it from the attribute: there the attribute is the same everywhere
+            attr = canon[pi] if p[0] is None or rng.random() < 0.25 else free_attrs.pop()
+            if p[0] is None or rng.random() < 0.75:
+                members.append([attr, "shared", pi])
+            else:
+                members.append([attr, "elem", pi, free_srcs.pop() if rng.random() < 0.5 else None])
+        for _ in range(rng.choice([0, 1, 1, 2])):
+            members.append([free_attrs.pop(), "own", free_srcs.pop() if rng.random() < 0.4 else None, rng.choice(SHARED_KINDS),
+                            [rng.choice(SHARED_DEFAULTS)] if rng.random() < 0.7 else []])
+        if not members:
+            members.append([canon[0], "shared", 0])
+        rng.shuffle(members)
+        models.append({"untyped": rng.random() < 0.4, "members": members})
+    spec = {"pool": pool, "models": models}
+    order = [rng.randrange(len(models)) for _ in range(rng.choice([0, 1, len(models), len(models) + 1]))]
+    built = build_shared(spec)
+    bump(stats, "shared-cases")
+    names_of = {}
+    for m in models:
+        for entry in m["members"]:
+            if entry[1] == "shared":
+                names_of.setdefault(entry[2], set()).add(entry[0])
+    bump(stats, "shared-property-objects-under-different-names", sum(1 for s in names_of.values() if len(s) > 1))
+    bump(stats, "shared-property-objects-under-one-name", sum(1 for s in names_of.values() if len(s) == 1))
+    before = len(out.failures)
+    for mi, model in enumerate(built):
+        sources = [p.source or n for n, p in model.properties.items()]
+        good = {"Integer": [1, 0, 7], "String": ["s", "x1", ""], "Number": [2.5, 1, 0], "Array": [[1], [], [2.5, 3]]}
+        vals_for = {}
+        for n, p in model.properties.items():
+            fits = good.get(type(p.element).__name__)
+            vals_for[p.source or n] = rng.choice(fits) if fits and rng.random() < 0.85 else rng.choice([1, "s", 2.5, 0, [1], "x1", None, {"k": 1}])
+        subsets = [{k: vals_for[k] for k in combo} for r in range(len(sources) + 1) for combo in itertools.combinations(sources, r)]
+        rng.shuffle(subsets)
+        bump(stats, "shared-model-" + ("untyped" if models[mi]["untyped"] else "class") + ("-last-defined" if mi == len(built) - 1 else "-defined-earlier"))
+        for v in subsets[:5]:
+            case = {"shared": spec, "first_use_order": order, "model": mi, "value": v}
+            out.note_case(case, True)
+            run_shared(spec, order, mi, v, case, out, stats)
+    if len(out.failures) > before:
+        bump(stats, "shared-failing-cases")
 
 
 # ----------------------------------------------------------------------------- numeric defaults of every magnitude
@@ -725,7 +1240,12 @@ def run(ctx, scale=1.0):
                 "operation histories (no-value calls of the element and of its properties' elements and builds from data, 5-9 steps, over valid and "
                 "invalid class-level defaults of 8 kinds); numeric leaves with random numeric keywords and defaults of every magnitude "
                 "(10^-12 .. 10^40, ints and floats) called without a value and omitted from / supplied to a model class and an untyped object; every "
-                "build that fails is compared with the default-free twin of its schema (the omitted properties declare no default); a case is a (schema, supplied-subset) pair or a history prefix; distinct by SHA-256")
+                "build that fails is compared with the default-free twin of its schema (the omitted properties declare no default); declarations written once and used by "
+                "2-4 models (the Property object itself or its element, under the same or different Python names, model classes and untyped objects, any order "
+                "of first use) x <= 5 supplied subsets per model, supplied values compared too; caller histories (5-11 steps: builds omitting members whose "
+                "defaults are structures of 7 kinds, in-place modification of received values 0-3 levels below the top, calls without a value), defaults "
+                "compared with what supplying them yields, model instances attribute by attribute; "
+                "a case is a (schema, supplied-subset) pair or a history prefix; distinct by SHA-256")
     stats = {}
     drv = core.Driver()
     try:
@@ -768,6 +1288,10 @@ def run(ctx, scale=1.0):
             history_case(rng, sg, vg, out, stats)
         for _ in range(int(n * 0.6)):
             magnitude_case(rng, out, stats)
+        for _ in range(int(n * 0.2)):
+            shared_case(rng, out, stats)
+        for _ in range(int(n * 0.2)):
+            caller_history_case(rng, vg, out, stats)
     finally:
         drv.close()
     # report first what lies outside every listed region (a failure inside one is unexplained only because the model or the
@@ -899,10 +1423,18 @@ def _inherit_fails(case):
     return bool(out.failures)
 
 
+def _shared_fails(case):
+    out, stats = Outcome(), {}
+    run_shared(case["shared"], case["first_use_order"], case["model"], case["value"], case, out, stats)
+    return any(f.get("finding") is None for f in out.failures)
+
+
 def replay(payload):
     case = payload.get("failure", {}).get("case")
     if case and "inherit" in case:
         return not _inherit_fails(case)
+    if case and "shared" in case:
+        return not _shared_fails(case)
     if case and "schema" in case and "ops" in case:
         return not _history_fails(case, payload.get("failure"))
     if case and "schema" in case and "values" in case:
